@@ -30,6 +30,10 @@ CHECKS['C09'] = dict(tech='model-based Hypothesis input histories against per-bl
              text='13 sequential blocks are stepped in lock-step with reference state machines from power-up over generated histories (bursts of reset/enable/push/pop, same-address read/write), outputs compared before and after every edge; for tiny configurations every transition of the reachable product machine is executed. Exploration (BFS stratum complete for the listed tiny configurations).',
              note='Trusted: the reference machines in pbt/props/c09.py. Controls are 1-bit; power-up output before the first edge belongs to C01.',
              ref='DESIGN.md 2/C09')
+CHECKS['C16'] = dict(tech='model-based Hypothesis handshake schedules against peer-view reference state machines + transfer-log invariants + exhaustive BFS of the 1-bit-data product machine',
+             text='Both adapters are stepped in lock-step with reference machines written from the statement in the peer view (beat = VALID and READY on the wires) over generated schedules of start/reset/done/load pulses and back-pressure, all outputs compared before and after every edge, plus invariants (VALID persistence, TDATA stability, sent only after a beat, READY = active, TLAST = TVALID, constant TKEEP); every transition of the 1-bit-data product machine is executed. Exploration; one known finding (load pulse at the ap_done edge) is excluded by construction and replayed.',
+             note='Trusted: the reference machines in pbt/props/c16.py; environment assumption of the statement enforced by clearing disallowed ap_done pulses (counted).',
+             ref='DESIGN.md 2/C16')
 NOT_APPLICABLE = {}
 
 def main():
